@@ -75,5 +75,5 @@ def run(tier, seed):
 
 def replay(path):
     d = vc.fresh_dir(PID + "_replay")
-    ranks = 3 if "h_run3" in open(path).read(400) else 2
+    ranks = 3 if os.path.basename(path).startswith("r3") else 2
     return vc.rsched_replay(hc.build(d, ranks=ranks), path)
